@@ -53,11 +53,13 @@ type intrinsic func(in *Interp, fr *frame, args []Value, site *ssa.CallCommon) V
 var buildMu sync.Mutex
 
 type Interp struct {
-	prog   *ssa.Program
-	bnOrd  *big.Int // bn256 model: group order read from the package
-	tt     *TermTable
-	solver *Solver
-	opts   *Options
+	prog    *ssa.Program
+	bnOrd   *big.Int         // bn256 model: group order read from the package
+	secpPts map[string]bool  // secp256k1 model: stand-in public key points
+	hexTab  map[*Term]hexRec // hex digit characters produced by hex.Encode of symbolic bytes
+	tt      *TermTable
+	solver  *Solver
+	opts    *Options
 
 	epoch       int
 	objCount    int
@@ -319,10 +321,16 @@ func (in *Interp) lookupIntrinsic(fn *ssa.Function) intrinsic {
 	return h
 }
 
+// runReal is returned by an intrinsic that declines: the function's own body is interpreted
+type runReal struct{}
+
 func (in *Interp) callSSA(caller *frame, fn *ssa.Function, args []Value, env []Value, tolerant bool) Value {
 	if h := in.lookupIntrinsic(fn); h != nil {
-		in.stubsUsed[fn.String()]++
-		return h(in, caller, args, nil)
+		r := h(in, caller, args, nil)
+		if _, real := r.(runReal); !real {
+			in.stubsUsed[fn.String()]++
+			return r
+		}
 	}
 	if fn.Synthetic == "package initializer" && !tolerant {
 		// a package initializer calling its imports' initializers: packages are initialised
